@@ -151,13 +151,20 @@ def body_clip_grid(ctx, conv, shape, holes, buffer):
     polygons = convention.polygons            # concrete coordinates: real shapely
     has_poly = [p is not None for p in polygons]
     hits = [ctx.bool(f'hit{n}') if has_poly[n] else False for n in range(ny * nx)]
+    # does the geometry cover the whole dataset?  if so it intersects every cell that has a polygon
+    covers_all = ctx.bool('covers_all')
+    ctx.assume(Implies(covers_all, And(*[hits[n] for n in range(ny * nx) if has_poly[n]])))
     if ctx.symbolic:
         tree = geo.StubTree(polygons, {n: hits[n] for n in range(ny * nx) if has_poly[n]})
         convention.__dict__['strtree'] = tree
-        clips = ['symbolic-geometry']
+        clips = [geo.SymClip(polygons, hits, covers_all)]
+    elif covers_all:
+        clips = [geo.covering_geometry(polygons)]
     else:
         # realise the hit pattern with several real geometries (points, boxes, lines, hulls)
         clips = geo.realise_hits(polygons, [n for n in range(ny * nx) if has_poly[n] and hits[n]])
+        everything = geo.covering_geometry(polygons).buffer(-1.0)
+        clips = [c for c in clips if not c.covers(everything)] or clips
     for clip in clips:
         _check_clip_grid(ctx, conv, shape, convention, clip, buffer, hits, tree if ctx.symbolic else None)
 
@@ -169,8 +176,6 @@ def _check_clip_grid(ctx, conv, shape, convention, clip, buffer, hits, tree):
         buffer = 0
     else:
         mask = convention.make_clip_mask(clip, buffer=buffer)
-    if ctx.symbolic:
-        ctx.check(tree.queries == ['intersects'], 'one spatial query with predicate intersects')
     H = numpy.array(hits, dtype=object).reshape(ny, nx)
     name = 'face_mask' if conv == 'shoc_standard' else 'cell_mask'
     cell = mask[name].values
@@ -213,6 +218,9 @@ def body_clip_mesh(ctx, mesh, variant, buffer, via):
         'edges': dict(with_edges=True),
         'edges1': dict(supply=('edge_node', 'face_edge'), start_index=1, fill='attr'),
         'edgesT': dict(supply=('edge_node',), transposed=True, edge_dimension_attr=False),
+        # one-based integer tables whose fill value is 0 / -1: the raw value under the mask is (or maps to) a node number
+        'fill0': dict(supply=('edge_node', 'face_edge'), start_index=1, fill='attr', fill_value=0),
+        'fillneg': dict(with_edges=True, start_index=0, fill='attr', fill_value=-1),
     }[variant]
     ds = builders.ugrid(mesh, **kw)
     nodes, faces = builders.MESHES[mesh]
@@ -226,16 +234,20 @@ def body_clip_mesh(ctx, mesh, variant, buffer, via):
         expected = ref_ring(faces, expected)
 
     if via == 'make_clip_mask':
+        covers_all = ctx.bool('covers_all')
+        ctx.assume(Implies(covers_all, len(chosen) == nf))
         if ctx.symbolic:
             tree = geo.StubTree(convention.polygons, {f: SymBool(f in chosen) for f in range(nf)})
             convention.__dict__['strtree'] = tree
-            clips = ['symbolic-geometry']
+            clips = [geo.SymClip(convention.polygons, [f in chosen for f in range(nf)], covers_all)]
+        elif covers_all:
+            clips = [geo.covering_geometry(convention.polygons)]
         else:
             clips = geo.realise_hits(convention.polygons, chosen)
+            everything = geo.covering_geometry(convention.polygons).buffer(-1.0)
+            clips = [c for c in clips if not c.covers(everything)] or clips
         for clip in clips:
             mask = convention.make_clip_mask(clip, buffer=buffer)
-            if ctx.symbolic:
-                ctx.check(tree.queries[-1:] == ['intersects'], 'one spatial query with predicate intersects')
             _check_mesh_mask(ctx, mask, via, variant, nodes, faces, expected, topology)
         return
     else:
@@ -332,7 +344,7 @@ def cases(tier):
                  ('shoc_simple', (2, 2), ()), ('shoc_standard', (2, 3), ()), ('shoc_standard', (3, 3), ((0, 0),))]
     if not q:
         grid_cfgs += [('cf1d', (3, 3), ()), ('cf2d', (3, 3), ((1, 1),)), ('shoc_standard', (3, 3), ()),
-                      ('cf1d', (1, 4), ()), ('cf2d', (4, 1), ()), ('shoc_standard', (1, 3), ()),
+                      ('cf1d', (2, 4), ()), ('cf2d', (4, 1), ()), ('shoc_standard', (1, 3), ()),
                       ('cf2d', (3, 4), ()), ('shoc_standard', (3, 4), ((3, 4),))]
     for conv, shape, holes in grid_cfgs:
         for buffer in (None, 0, 1, 2, 3):
@@ -342,9 +354,11 @@ def cases(tier):
             yield Case(f'clipgrid:{conv}:{shape[0]}x{shape[1]}:holes{hs}:buf{buffer}', body_clip_grid,
                        dict(conv=conv, shape=shape, holes=holes, buffer=buffer),
                        split=(32 if shape[0] * shape[1] >= 9 else 0), max_paths=10000)
-    meshes = ['tqp', 'fan', 'strip5'] if q else ['tq', 'tqp', 'qqq', 'fan', 'strip5', 'block']
+    meshes = ['tqp', 'fan', 'strip5', 'qqqtt'] if q else ['tq', 'tqp', 'qqq', 'fan', 'strip5', 'block', 'qqqtt']
     for mesh in meshes:
-        for variant in ('noedge', 'edges', 'edges1', 'edgesT'):
+        for variant in ('noedge', 'edges', 'edges1', 'edgesT', 'fill0', 'fillneg'):
+            if variant in ('fill0', 'fillneg') and mesh in ('qqq', 'fan', 'strip5', 'tri'):
+                continue        # uniform meshes have no fill entries
             if variant == 'edges1' and mesh in ('qqq', 'fan', 'strip5'):
                 kw_fill_ok = False   # uniform meshes have no fill entries; 'attr' still fine
             for buffer in (0, 1, 2, 3):
